@@ -105,7 +105,7 @@ def case(draw):
     extra = [0]
     for _ in range(draw(st.integers(1, 6))):
         k = draw(st.sampled_from(["edit", "edit", "edit", "delete-out", "salt", "add-edge", "remove-edge", "rewire",
-                                  "drop-input", "fault", "build", "build"]))
+                                  "drop-input", "rsp-salt", "fault", "build", "build"]))
         outs = [o for e in cur["edges"] for o in e["outs"]]
         if k == "edit":
             s = draw(st.sampled_from(srcs))
@@ -145,6 +145,11 @@ def case(draw):
                 else:
                     e["ins"] = e["ins"] + [new]
                 ops.append({"op": "manifest", "edit": {"k": "rewire", "edge": e["name"], "ins": list(e["ins"])}})
+        elif k == "rsp-salt" and [e for e in cur["edges"] if e["rsp"] and not e["depfile"] and not e["restat"] and len(e["outs"]) == 1]:
+            # only the CONTENT of the response file changes (the command line proper stays the same)
+            e = draw(st.sampled_from([e for e in cur["edges"] if e["rsp"] and not e["depfile"] and not e["restat"] and len(e["outs"]) == 1]))
+            e["rsp_salt"] = "r%d" % draw(st.integers(0, 3))
+            ops.append({"op": "manifest", "edit": {"k": "rspsalt", "edge": e["name"], "salt": e["rsp_salt"]}})
         elif k == "drop-input" and [e for e in cur["edges"] if len(e["ins"]) >= 2 and not e.get("gen")]:
             e = draw(st.sampled_from([e for e in cur["edges"] if len(e["ins"]) >= 2 and not e.get("gen")]))
             e["ins"] = e["ins"][:-1]
@@ -180,7 +185,9 @@ def to_desc(m):
             c["restat"] = True
         if e["rsp"] and not e["depfile"] and not e["restat"] and len(e["outs"]) == 1:
             # rspfile_content = $in: the explicit inputs, blank-separated; the command reads the file
-            c["rsp"] = " ".join(e["ins"])
+            # (rule level: rspfile_content = $in $rsalt -- a build-level binding is evaluated when it is declared,
+            # where $in does not exist yet, so the salt travels in a variable of its own)
+            c["rsp"] = " ".join(e["ins"]) + " " + (e.get("rsp_salt") or "")
             c["rsp_file"] = e["outs"][0] + ".rsp"
         cmds.append(c)
     for a in m["aliases"]:
@@ -192,7 +199,7 @@ def write_manifest(ws, m):
     L = ["rule run", "  command = $cmd", "  description = RUN $out",
          "rule run_dep", "  command = $cmd", "  depfile = $dfile", "  deps = gcc",
          "rule run_restat", "  command = $cmd", "  restat = 1",
-         "rule run_rsp", "  command = $cmd", "  rspfile = $out.rsp", "  rspfile_content = $in",
+         "rule run_rsp", "  command = $cmd", "  rspfile = $out.rsp", "  rspfile_content = $in $rsalt",
          "rule run_gen", "  command = $cmd", "  generator = 1",
          "pool slow", "  depth = 1", ""]
     desc = to_desc(m)
@@ -212,6 +219,8 @@ def write_manifest(ws, m):
         else:
             c.pop("restat", None)
         L.append("  cmd = " + " ".join(bm.command_args(c)))
+        if e.get("rsp_salt") and c.get("rsp") is not None:
+            L.append("  rsalt = " + e["rsp_salt"])
         if e["depfile"]:
             L.append("  dfile = %s.d" % e["name"])
         if e["pool"]:
@@ -248,6 +257,10 @@ def apply_edit(m, ed):
         for e in m["edges"]:
             if e["name"] == ed["edge"]:
                 e["salt"] = ed["salt"]
+    elif ed["k"] == "rspsalt":
+        for e in m["edges"]:
+            if e["name"] == ed["edge"]:
+                e["rsp_salt"] = ed["salt"]
     elif ed["k"] == "add":
         m["edges"].append(copy.deepcopy(ed["edge"]))
     elif ed["k"] == "remove":
@@ -468,7 +481,7 @@ def must_may(m, change, discovered):
                 must.add(e["name"])
     elif kind == "manifest":
         ed = what
-        if ed["k"] in ("salt", "rewire"):
+        if ed["k"] in ("salt", "rewire", "rspsalt"):
             must.add(ed["edge"])
         elif ed["k"] == "add":
             must.add(ed["edge"]["name"])
